@@ -415,4 +415,31 @@ Finals(prog, s, ms, ph, todo) ==
 
 AllFinals(prog) == Finals(prog, InitStore(prog), WalkOrderOf(prog), "types", StepsOf(prog, "a", "types"))
 
+---------------------------------------------------------------------------
+(* Reference graph of a program: which entity mentions which.  Programs whose *)
+(* graph has a cycle are the ones where a Link call can reach an entity whose  *)
+(* own Link is still on the stack (the linkOnce early return), i.e. where the  *)
+(* result can depend on the order; the quick tier always replays them.         *)
+RefTargets(prog, m, ref) == IF ref.q \in {"base", "none"} THEN {} ELSE {<<"t", RefKey(m, ref)>>}
+CValTargets(m, v) == IF v.k # "ref" THEN {}
+                     ELSE IF v.q = "" THEN {<<"c", Key(m, v.n)>>} ELSE {<<"c", Key(v.q, v.n)>>, <<"t", Key(m, v.q)>>}
+Succs(prog, node) ==
+  LET kd == node[1] key == node[2] m == ModOf(key) IN
+  CASE kd = "t" /\ TDefd(prog, key) ->
+         LET d == prog.ty[key] IN
+         CASE d.k = "td" -> RefTargets(prog, m, d.tgt)
+           [] d.k = "st" -> RefTargets(prog, m, d.fty) \cup CValTargets(m, d.dfl)
+           [] OTHER -> {}
+    [] kd = "c" /\ CDefd(prog, key) -> RefTargets(prog, m, prog.co[key].ty) \cup CValTargets(m, prog.co[key].val)
+    [] kd = "s" /\ SDefd(prog, key) ->
+         LET par == prog.sv[key].par IN
+         IF par.q = "none" THEN {} ELSE IF par.q = "" THEN {<<"s", Key(m, par.n)>>} ELSE {<<"s", Key(par.q, par.n)>>}
+    [] OTHER -> {}
+Nodes(prog) == { <<"t", k>> : k \in TKeysOf(prog) } \cup { <<"c", k>> : k \in CKeysOf(prog) } \cup { <<"s", k>> : k \in SKeysOf(prog) }
+RECURSIVE ReachN(_, _, _)
+ReachN(prog, frontier, seen) ==
+  IF frontier \subseteq seen THEN seen
+  ELSE ReachN(prog, UNION { Succs(prog, x) : x \in frontier }, seen \cup frontier)
+HasRefCycle(prog) == \E x \in Nodes(prog) : x \in ReachN(prog, Succs(prog, x), {})
+
 =============================================================================
